@@ -841,10 +841,13 @@ class ELF(object):
     def build_content(self):
         c = StrPatchwork()
         c[0] = bytes(self.Ehdr)
-        c[self.Ehdr.phoff] = bytes(self.ph)
+        # Table entries are e_phentsize / e_shentsize bytes apart
+        for i, p in enumerate(self.ph.phlist):
+            c[self.Ehdr.phoff + i * self.Ehdr.phentsize] = bytes(p.ph)
         for s in self.sh:
             c[s.sh.offset] = bytes(s.content)
-        c[self.Ehdr.shoff] = bytes(self.sh)
+        for i, s in enumerate(self.sh.shlist):
+            c[self.Ehdr.shoff + i * self.Ehdr.shentsize] = bytes(s.sh)
         return bytes(c)
 
     def __bytes__(self):
